@@ -458,6 +458,40 @@ func (c *Ctx) Need(rule, rel, name string) *ssa.Function {
 	return f
 }
 
+// NeedRole finds the function of package rel (anonymous functions included)
+// that plays a role recognised by pred; fallback names the function of the
+// pinned tree and is used when several qualify. The anchor is thereby bound to
+// what the function does, not to what it is called.
+func (c *Ctx) NeedRole(rule, rel, fallback, role string, pred func(*ssa.Function) bool) *ssa.Function {
+	var found []*ssa.Function
+	for _, f := range c.P.ModFuncs() {
+		top := f
+		for top.Parent() != nil {
+			top = top.Parent()
+		}
+		if top.Pkg == nil || top.Pkg.Pkg.Path() != ModPath+"/"+rel || f.Blocks == nil {
+			continue
+		}
+		if pred(f) {
+			found = append(found, f)
+		}
+	}
+	if len(found) == 1 {
+		c.FuncsSeen[found[0].String()] = true
+		return found[0]
+	}
+	if f := c.P.Func(rel, fallback); f != nil && f.Blocks != nil {
+		for _, g := range found {
+			if g == f {
+				c.FuncsSeen[f.String()] = true
+				return f
+			}
+		}
+	}
+	c.Unknown(rule, rel+"."+fallback, token.NoPos, "anchor not found: %d functions of %s play the role %q (%s on the pinned tree): the rule cannot be evaluated", len(found), rel, role, fallback)
+	return nil
+}
+
 func (c *Ctx) Seen(f *ssa.Function) {
 	if f != nil {
 		c.FuncsSeen[f.String()] = true
